@@ -233,6 +233,8 @@ func scenarios(thorough bool) []scenario {
 		{"equal-timestamps", [][]op{{both(1, 10, 10)}, {both(2, 20, 10)}, {rd(12, 1, 1)}}},
 		{"reader-between-markets", [][]op{{both(100, 1000, 10), both(200, 2000, 20)}, {rd(25, 1, 1), rd(25, 1, 1)}}},
 		// a read that finds an entry stale must not forget it: a late read, then an older update, then an earlier read
+		// an exchange that reports an unchanged price again is as fresh as its latest report
+		{"same-price-again", [][]op{{both(100, 1000, 10), both(100, 1000, 25), rd(30, 1, 1)}, {rd(31, 1, 1)}}},
 		{"late-read-then-older-update", [][]op{{both(100, 1000, 20), rd(40, 1, 1), both(50, 500, 15), rd(25, 1, 1)}, {rd(26, 1, 1)}}},
 	}
 	if thorough {
